@@ -71,6 +71,8 @@ int main(void) {
             else if (!strcmp(name, "assertNotEqual")) assert_not_equal(A, E);
             else if (!strcmp(name, "assertTrue")) assert_true(A);
             else if (!strcmp(name, "assertFalse")) assert_false(A);
+            else if (!strcmp(name, "assertTrueMsg")) assert_true_with_message(A, "m");
+            else if (!strcmp(name, "assertFalseMsg")) assert_false_with_message(A, "m");
             else if (!strcmp(name, "assertEqualMsg")) assert_equal_with_message(A, E, "m");
             else if (!strcmp(name, "assertNotEqualMsg")) assert_not_equal_with_message(A, E, "m");
             else if (!strcmp(name, "isEqualToHex")) assert_that(A, is_equal_to_hex(E));
